@@ -10,6 +10,8 @@ import (
 	"errors"
 	"flag"
 	"fmt"
+	"google.golang.org/protobuf/reflect/protoreflect"
+	"google.golang.org/protobuf/runtime/protoimpl"
 	"os"
 	"reflect"
 	"strings"
@@ -130,6 +132,24 @@ func probes() []probe {
 		{"gogodesc.File", func() interface{} {
 			return &gogodesc.FileDescriptorProto{Name: str("a.proto"), Dependency: []string{"b", "c"}}
 		}, func() interface{} { return &gogodesc.FileDescriptorProto{} }, "gogo"},
+		{"gogodesc.MessageOptions+ext", func() interface{} {
+			// a plain gogo type (no Marshal/Unmarshal methods of its own) carrying extensions
+			setupExts()
+			t := true
+			m := &gogodesc.MessageOptions{Deprecated: &t}
+			v := int64(-77)
+			hx.Must(gogoproto.SetExtension(m, gogoExts[50100], &v))
+			sv := "ext"
+			hx.Must(gogoproto.SetExtension(m, gogoExts[50101], &sv))
+			return m
+		}, func() interface{} { return &gogodesc.MessageOptions{} }, "gogo"},
+		{"descriptorpb.MessageOptions+ext", func() interface{} {
+			setupExts()
+			m := &descriptorpb.MessageOptions{Deprecated: proto.Bool(true)}
+			proto.SetExtension(m, v2Exts[50100], int64(-77))
+			proto.SetExtension(m, v2Exts[50101], "ext")
+			return m
+		}, func() interface{} { return &descriptorpb.MessageOptions{} }, "google"},
 		{"LegacyV1", func() interface{} {
 			return &LegacyV1{A: i32(-7), S: str("legacy"), R: []int64{1, -1, 1 << 40}, B: []byte{9}}
 		}, func() interface{} { return &LegacyV1{} }, "googlev1"},
@@ -383,6 +403,26 @@ func streamC11(r *hx.Rng) {
 					}
 				}
 			}
+			// (d) a message that was sized / marshaled before and has been modified since (the runtimes cache sizes inside
+			//     the message): Size and Marshal speak about the contents as they are now
+			if p.owner == "google" || p.owner == "gogo" {
+				mm := p.mk()
+				_ = csproto.Size(mm)
+				_, _ = csproto.Marshal(mm)
+				_, _ = ownerMarshal(p.owner, mm)
+				if grew := growSomeField(mm); grew {
+					sink.OracleN++
+					sz := csproto.Size(mm)
+					cb3, e3 := csproto.Marshal(mm)
+					fresh := csproto.Clone(mm)
+					ob3, e4 := ownerMarshal(p.owner, fresh)
+					d := p.empty()
+					if e3 != nil || e4 != nil || sz != len(cb3) || len(cb3) != len(ob3) || ownerUnmarshal(p.owner, cb3, d) != nil || !ownerEqual(p.owner, d, mm) {
+						fail("Size/Marshal of a message modified after it was first sized do not describe its current contents", cs+" size, modify, size",
+							fmt.Sprintf("size=%d bytes=%s", len(ob3), hx.B(ob3)), fmt.Sprintf("size=%d bytes=%s %v", sz, hx.B(cb3), e3), "shim-stale-size")
+					}
+				}
+			}
 			// (c) a typed nil pointer of the message type
 			nilv := reflect.Zero(reflect.TypeOf(m)).Interface()
 			sink.OracleN++
@@ -513,3 +553,38 @@ var _ = json.Valid
 var _ = protojson.Format
 var _ = jsonpbV1.Marshaler{}
 var _ = gogojsonpb.Marshaler{}
+
+// growSomeField changes the first singular string or integer field it finds (through protoreflect) so that the
+// encoded size changes; reports whether it found one
+func growSomeField(m interface{}) (done bool) {
+	defer func() {
+		if recover() != nil {
+			done = false
+		}
+	}()
+	var rm protoreflect.Message
+	if pm, ok := m.(proto.Message); ok {
+		rm = pm.ProtoReflect()
+	} else {
+		rm = protoimpl.X.ProtoMessageV2Of(m).ProtoReflect()
+	}
+	fds := rm.Descriptor().Fields()
+	for i := 0; i < fds.Len(); i++ {
+		fd := fds.Get(i)
+		if fd.IsList() || fd.IsMap() {
+			continue
+		}
+		switch fd.Kind() {
+		case protoreflect.StringKind:
+			rm.Set(fd, protoreflect.ValueOfString(rm.Get(fd).String()+" -- grown by forty-odd characters after the first Size --"))
+			return true
+		case protoreflect.Int64Kind, protoreflect.Sint64Kind:
+			rm.Set(fd, protoreflect.ValueOfInt64(rm.Get(fd).Int()^0x7fffffffffff))
+			return true
+		case protoreflect.Int32Kind:
+			rm.Set(fd, protoreflect.ValueOfInt32(int32(rm.Get(fd).Int())^0x7ffffff))
+			return true
+		}
+	}
+	return false
+}
